@@ -595,6 +595,33 @@ def rule_r6(chk, db):
     chk.verdict(ok, "R6", "string-reader-unescapes", sb[0].loc() if sb else "", "the String reader does not unescape character data")
 
 
+def rule_r4_union(chk, db):
+    """a union element has exactly one child: the helper that decodes it hands at most one child to the member reader (and leaves a second
+    child to the caller's expect_end, which refuses it).  Decided on the helper: its reader parameter is `FnOnce` (the type system allows
+    one invocation), or the invocation lies on no cycle - a loop, or a closure handed on to an element loop, would keep the last of several."""
+    from .. import writes
+    hs = [b for n, b in db.bodies.items() if b.crate == "s3s" and b.kind == "AssocFn" and n.startswith(DE + "Deserializer") and short(n) in ("element", "element_with_ns")]
+    chk.floor("R4.union", len(hs), 1, "union element helpers of the deserialiser")
+    for b in hs:
+        readers = [l for l in range(1, b.argc + 1) if "Fn" in b.locals[l] and "(&mut" in b.locals[l]]
+        if not readers:
+            chk.fail("R4", "union-single-child@%s" % short(b.name), b.loc(), "cannot identify the member reader parameter of %s" % short(b.name))
+            continue
+        ty = b.locals[readers[0]]
+        once = "FnOnce" in ty
+        looped = []
+        if not once:
+            for x in db.nested(b):
+                lb = writes.loop_blocks(x)
+                for bi, t in x.calls():
+                    if short(callee_def(t)) in ("call_mut", "call", "call_once") and "ops::function" in callee_def(t):
+                        if bi in lb or x is not b:
+                            looped.append(x.loc(bi))
+        chk.verdict(once or not looped, "R4", "union-single-child@%s" % short(b.name), b.loc(),
+                    "%s may run the member reader more than once (reader is `%s`, invoked at %s inside a loop / an element-loop closure): of several "
+                    "children the last one wins instead of the document being refused" % (short(b.name), ty[:40], ", ".join(looped[:2])))
+
+
 def rule_r7(chk, db):
     """event pump totality"""
     b = inline.inlined(db, db.body(DE + "Deserializer::<'xml>::read_event"))
@@ -625,6 +652,17 @@ def rule_r7(chk, db):
             r = flow.reach(b, [tb], removed=frozenset(be))
             if r & de_blocks:
                 ok = True
+        # ... and on no path goes round the loop without having built one: an event that is dropped under a condition on its content
+        # (`Text(x) if x is all white space => continue`) loses `<Value> </Value>` and the tab of `<FieldDelimiter>`
+        if ok:
+            srcs = {src_ for (src_, _) in be}
+            for lab in labs:
+                tb = flow.edge_target(b, (s, lab))
+                r2 = flow.reach(b, [tb], stop_blocks=frozenset(de_blocks))
+                dropped = sorted(x for x in srcs if x in r2 and x not in de_blocks)
+                chk.verdict(not dropped, "R7", "pump-keeps-every:" + v, b.loc(dropped[0]) if dropped else b.loc(s),
+                            "a quick-xml `%s` event (character data) can be discarded by the event pump on some path (a condition on its content decides): "
+                            "white-space-only values such as `<Value> </Value>` decode as the empty string" % v)
         chk.verdict(ok, "R7", "pump:" + v, b.loc(s),
                     "quick-xml `%s` events (character data) are skipped by the event pump: `<Key><![CDATA[abc]]></Key>` decodes as the empty string" % v if v == "CData" else
                     "quick-xml `%s` events (character data) are skipped by the event pump" % v)
@@ -789,6 +827,7 @@ def run(chk, db, tier):
     chk.guard("R5", rule_r5, db, model)
     chk.guard("R6", rule_r6, db)
     chk.guard("R7", rule_r7, db)
+    chk.guard("R4", rule_r4_union, db)
     chk.guard("R8", rule_r8, db)
     chk.guard("R9", rule_r9, db)
     chk.guard("R10", rule_r10, db, model, enc, dec)
